@@ -68,7 +68,12 @@ func cmdRun(args []string) {
 	count := fs.Int("count", -1, "number of tests to run")
 	work := fs.String("work", "/dev/shm", "directory for database roots")
 	timeout := fs.Duration("timeout", 60*time.Second, "per-test watchdog")
+	locks := fs.String("locktrace", "", "record the lock operations of every call into this ndjson file")
 	fs.Parse(args)
+	if *locks != "" {
+		startLockTrace(*locks)
+		defer stopLockTrace()
+	}
 
 	in, err := os.Open(*tests)
 	if err != nil {
